@@ -483,7 +483,7 @@ def shared(ctx):
     core.import_rules(ctx, [c15.r6_stage_order], "X15")          # each pool is processed once per block: a pool listed twice credits its reserves twice for coins consumed once
     # ERG enters circulation only through DoscMint, bounded by the reward formula evaluated against the previous block's speed (C18.R1/R2/R5)
     from rules.props import c18
-    core.import_rules(ctx, [c18.r1_gate_chain, c18.r2_reward_bound, c18.r5_speed_formula, c18.r6_reward_rounds_down], "X18")
+    core.import_rules(ctx, [c18.r1_gate_chain, c18.r2_reward_bound, c18.r5_speed_formula, c18.r6_reward_rounds_down, c18.r7_trusted_verifier], "X18")
     from rules.props import c06
     core.import_rules(ctx, [c06.r5_activation_table], "X06")          # the SYM subsidy is minted from TIP-909 on, split by TIP-909a
 
